@@ -202,6 +202,9 @@ func execSig(p *Program, cfg ExecCfg, ex *execState) uint64 {
 	if cfg.ListGenerated {
 		h = (h ^ 0x11d6) * 1099511628211
 	}
+	if cfg.RealDeps {
+		h = (h ^ 0x4ea1d) * 1099511628211
+	}
 	if cfg.OutHandling != 0 {
 		h = (h ^ cfg.OutHandling) * 1099511628211
 	}
